@@ -294,6 +294,18 @@ impl<'r> BookGen<'r> {
             let a = self.price(&commodity);
             p.lot = Some(if self.rng.chance(2, 3) { Price::Rate(a) } else { Price::Total(a) });
         }
+        if self.rng.chance(1, 40) {
+            // a posting that moves nothing: a commodity-less zero (legal; it may still carry an
+            // assertion, and it is a posting like any other for the ones that follow)
+            p.cost = None;
+            p.lot = None;
+            p.amount = Some(match self.rng.below(4) {
+                0 => AmountExpr::Expr { text: "(0)".into(), value: Q::ZERO, commodity: String::new() },
+                1 => AmountExpr::Expr { text: "(1 - 1)".into(), value: Q::ZERO, commodity: String::new() },
+                2 => AmountExpr::Lit(Amt::new(0, 2, "")),
+                _ => AmountExpr::Lit(Amt::new(0, 0, "")),
+            });
+        }
         if self.rng.chance(self.profile.invalid_pct, 100) {
             match self.rng.below(5) {
                 0 => {
